@@ -158,7 +158,7 @@ impl Converter {
             Term::Var(var_name) => Term::Var(
                 Name {
                     text: var_name.text.to_string(),
-                    unique: self.get_unique(&var_name.index)?,
+                    unique: self.get_variable_unique(&var_name.index)?,
                 }
                 .into(),
             ),
@@ -217,7 +217,7 @@ impl Converter {
     pub fn debruijn_to_name(&mut self, term: &Term<DeBruijn>) -> Result<Term<Name>, Error> {
         let converted_term = match term {
             Term::Var(index) => {
-                let unique = self.get_unique(index)?;
+                let unique = self.get_variable_unique(index)?;
 
                 Term::Var(
                     Name {
@@ -474,6 +474,18 @@ impl Converter {
         }
 
         Err(Error::FreeIndex(*index))
+    }
+
+    /// The unique a variable occurrence refers to. Variable indices start at 1:
+    /// index 0 only ever designates the binder being declared, and the last binder
+    /// declared at the current level stays registered after its scope ends, so a
+    /// variable with index 0 must be rejected rather than resolved to that binder.
+    fn get_variable_unique(&mut self, index: &DeBruijn) -> Result<Unique, Error> {
+        if index.inner() == 0 {
+            return Err(Error::FreeIndex(*index));
+        }
+
+        self.get_unique(index)
     }
 
     fn declare_unique(&mut self, unique: Unique) {
